@@ -777,6 +777,11 @@ pub struct World {
     pub submit_counts: std::collections::BTreeMap<Hash, u32>,
     /// Number of retries of a ticketed intent that went through plain `ingest`.
     pub cross_route_retries: u32,
+    /// Route of the most recent ACCEPTED submission per ingress id (`true` = ticketed route:
+    /// `submit_intent` + `ingest_ticketed_invocation`, which leaves a receipt correlation at commit).
+    pub accepted_route: std::collections::BTreeMap<Hash, bool>,
+    /// Set for the duration of one `submit_routed(.., true)` call.
+    pub force_plain: bool,
 }
 
 pub fn build_engine(workers: u8) -> Engine {
@@ -839,6 +844,8 @@ impl World {
             restarts: 0,
             submit_counts: std::collections::BTreeMap::new(),
             cross_route_retries: 0,
+            accepted_route: std::collections::BTreeMap::new(),
+            force_plain: false,
         }
     }
 
@@ -890,7 +897,31 @@ impl World {
         self.policies[head] = policy.clone();
     }
 
+    /// Submit through the intent's own route (ticketed intents: `submit_intent` +
+    /// `ingest_ticketed_invocation`; others: plain `ingest`).
     pub fn submit(&mut self, spec: &IntentSpec) -> SubmitObs {
+        self.submit_routed(spec, false)
+    }
+
+    /// `plain_retry = true`: a RETRY of a ticketed intent that comes back through plain `ingest`
+    /// (a client retry does not have to take the route of the original). Only used for repeats,
+    /// so the copy that gets accepted first always entered through the intent's own route and the
+    /// canonical and variant runs stay comparable.
+    pub fn submit_routed(&mut self, spec: &IntentSpec, plain_retry: bool) -> SubmitObs {
+        let ticketed_route = spec.is_ticketed() && !plain_retry;
+        if spec.is_ticketed() && plain_retry {
+            self.cross_route_retries += 1;
+        }
+        self.force_plain = plain_retry;
+        let obs = self.submit_inner(spec);
+        self.force_plain = false;
+        if obs.class == SubmitClass::Accepted {
+            self.accepted_route.insert(obs.ingress_id, ticketed_route);
+        }
+        obs
+    }
+
+    fn submit_inner(&mut self, spec: &IntentSpec) -> SubmitObs {
         let env = spec.envelope(&self.topo);
         let id = env.ingress_id();
         let nth = {
@@ -898,10 +929,8 @@ impl World {
             *c += 1;
             *c
         };
-        if spec.is_ticketed() && nth % 2 == 0 {
-            self.cross_route_retries += 1;
-        }
-        if !spec.is_ticketed() || nth % 2 == 0 {
+        let _ = nth;
+        if !spec.is_ticketed() || self.force_plain {
             return match self.runtime.ingest(env) {
                 Ok(IngressDisposition::Accepted {
                     ingress_id,
